@@ -351,7 +351,10 @@ func (inst *Inst) reap() {
 		})
 		for _, h := range hs {
 			// never block on a hook mutex (its sender may be asleep holding it)
-			if mu, ok := h.cond.L.(*sync.Mutex); ok && mu.TryLock() {
+			if mu, ok := h.cond.L.(interface {
+				TryLock() bool
+				Unlock()
+			}); ok && mu.TryLock() {
 				mu.Unlock()
 				h.Close()
 			}
@@ -403,7 +406,10 @@ func (inst *Inst) hookMutexHeld() bool {
 		if h.channel {
 			return true
 		}
-		if mu, ok := h.cond.L.(*sync.Mutex); ok {
+		if mu, ok := h.cond.L.(interface {
+			TryLock() bool
+			Unlock()
+		}); ok {
 			if mu.TryLock() {
 				mu.Unlock()
 			} else {
